@@ -1,9 +1,9 @@
 use std::cell::UnsafeCell;
 use std::ptr;
 #[cfg(not(may_verif))]
-use std::sync::atomic::{AtomicPtr, Ordering};
+use std::sync::atomic::{AtomicPtr, AtomicUsize, Ordering};
 #[cfg(may_verif)]
-use crate::verif::atomic::AtomicPtr;
+use crate::verif::atomic::{AtomicPtr, AtomicUsize};
 #[cfg(may_verif)]
 use std::sync::atomic::Ordering;
 
@@ -13,7 +13,9 @@ struct Node<T> {
     prev: *mut Node<T>,
     next: AtomicPtr<Node<T>>,
     value: Option<T>,
-    refs: usize,
+    // shared by the list (its consumer thread) and the handle, which is
+    // dropped wherever its owner happens to run: must be atomic
+    refs: AtomicUsize,
 }
 // linked bit is MSB, ref count is 2 for handle and list
 const REF_INIT: usize = 0x1000_0002;
@@ -25,7 +27,7 @@ impl<T> Node<T> {
             prev: ptr::null_mut(),
             next: AtomicPtr::new(ptr::null_mut()),
             value: v,
-            refs: REF_INIT,
+            refs: AtomicUsize::new(REF_INIT),
         }))
     }
 }
@@ -53,7 +55,7 @@ impl<T> Entry<T> {
     #[inline]
     pub fn is_link(&self) -> bool {
         let node = unsafe { &mut *self.0.as_ptr() };
-        node.refs & !REF_COUNT_MASK != 0
+        node.refs.load(Ordering::Acquire) & !REF_COUNT_MASK != 0
     }
 
     #[inline]
@@ -80,7 +82,7 @@ impl<T> Entry<T> {
             let node = self.0.as_mut();
 
             // when the link bit is cleared, next and prev is no longer valid
-            if node.refs & !REF_COUNT_MASK == 0 {
+            if node.refs.load(Ordering::Acquire) & !REF_COUNT_MASK == 0 {
                 // already removed
                 return None;
             }
@@ -105,12 +107,7 @@ impl<T> Entry<T> {
             // that prevent frequent queue create and destroy
             if !next.is_null() {
                 // clear the link bit
-                #[cfg(not(may_verif))]
-                {
-                    node.refs &= REF_COUNT_MASK;
-                }
-                #[cfg(may_verif)]
-                crate::verif::plain_rmw(&mut node.refs, |v| v & REF_COUNT_MASK);
+                node.refs.fetch_and(REF_COUNT_MASK, Ordering::AcqRel);
 
                 // this is not the last node, just unlink it
                 (*next).prev = prev;
@@ -119,15 +116,7 @@ impl<T> Entry<T> {
                 let ret = node.value.take();
 
                 // since self is not dropped, below is always false
-                #[cfg(not(may_verif))]
-                {
-                    node.refs -= 1;
-                }
-                #[cfg(may_verif)]
-                crate::verif::plain_rmw(&mut node.refs, |v| v - 1);
-                #[cfg(may_verif)]
-                crate::verif::point(crate::verif::Op::PlainRead, &node.refs as *const usize as usize);
-                if node.refs == 0 {
+                if node.refs.fetch_sub(1, Ordering::AcqRel) == 1 {
                     // release the node only when the ref count becomes 0
                     let _: Box<Node<T>> = Box::from_raw(node);
                 }
@@ -146,18 +135,8 @@ impl<T> Drop for Entry<T> {
     // returning from "kernel"
     fn drop(&mut self) {
         let node = unsafe { self.0.as_mut() };
-        // dec the ref count of node
-        #[cfg(not(may_verif))]
-        {
-            node.refs -= 1;
-        }
-        #[cfg(may_verif)]
-        unsafe {
-            crate::verif::plain_rmw(&mut node.refs, |v| v - 1)
-        };
-        #[cfg(may_verif)]
-        crate::verif::point(crate::verif::Op::PlainRead, &node.refs as *const usize as usize);
-        if node.refs == 0 {
+        // dec the ref count of node: the last one of the two owners frees it
+        if node.refs.fetch_sub(1, Ordering::AcqRel) == 1 {
             // release the node
             let _: Box<Node<T>> = unsafe { Box::from_raw(node) };
         }
@@ -183,7 +162,7 @@ impl<T> Queue<T> {
     pub fn new() -> Queue<T> {
         let stub = unsafe { Node::new(None) };
         // there is no handle for the node, so it's ref should be 1 now
-        unsafe { &mut *stub }.refs = 1;
+        unsafe { &mut *stub }.refs = AtomicUsize::new(1);
         Queue {
             head: AtomicPtr::new(stub).into(),
             tail: UnsafeCell::new(stub),
@@ -286,13 +265,8 @@ impl<T> Queue<T> {
             }
 
             // clear the link bit
-            assert!((*tail).refs & REF_COUNT_MASK != 0);
-            #[cfg(not(may_verif))]
-            {
-                (*tail).refs &= REF_COUNT_MASK;
-            }
-            #[cfg(may_verif)]
-            crate::verif::plain_rmw(&mut (*tail).refs, |v| v & REF_COUNT_MASK);
+            assert!((*tail).refs.load(Ordering::Acquire) & REF_COUNT_MASK != 0);
+            (*tail).refs.fetch_and(REF_COUNT_MASK, Ordering::AcqRel);
 
             // clear the prev pointer indicate a new end point
             (*next).prev = ptr::null_mut();
@@ -303,15 +277,7 @@ impl<T> Queue<T> {
 
             // we take the next value, this is why use option to host the value
             let ret = (*next).value.take().unwrap();
-            #[cfg(not(may_verif))]
-            {
-                (*tail).refs -= 1;
-            }
-            #[cfg(may_verif)]
-            crate::verif::plain_rmw(&mut (*tail).refs, |v| v - 1);
-            #[cfg(may_verif)]
-            crate::verif::point(crate::verif::Op::PlainRead, &(*tail).refs as *const usize as usize);
-            if (*tail).refs == 0 {
+            if (*tail).refs.fetch_sub(1, Ordering::AcqRel) == 1 {
                 // release the node only when the ref count becomes 0
                 let _: Box<Node<T>> = Box::from_raw(tail);
             }
@@ -333,13 +299,8 @@ impl<T> Queue<T> {
             }
 
             // clear the link bit
-            assert!((*tail).refs & REF_COUNT_MASK != 0);
-            #[cfg(not(may_verif))]
-            {
-                (*tail).refs &= REF_COUNT_MASK;
-            }
-            #[cfg(may_verif)]
-            crate::verif::plain_rmw(&mut (*tail).refs, |v| v & REF_COUNT_MASK);
+            assert!((*tail).refs.load(Ordering::Acquire) & REF_COUNT_MASK != 0);
+            (*tail).refs.fetch_and(REF_COUNT_MASK, Ordering::AcqRel);
 
             // spin until tail next become non-null
             let mut next;
@@ -363,15 +324,7 @@ impl<T> Queue<T> {
             assert!((*next).value.is_some());
             // we tack the next value, this is why use option to host the value
             let ret = (*next).value.take().unwrap();
-            #[cfg(not(may_verif))]
-            {
-                (*tail).refs -= 1;
-            }
-            #[cfg(may_verif)]
-            crate::verif::plain_rmw(&mut (*tail).refs, |v| v - 1);
-            #[cfg(may_verif)]
-            crate::verif::point(crate::verif::Op::PlainRead, &(*tail).refs as *const usize as usize);
-            if (*tail).refs == 0 {
+            if (*tail).refs.fetch_sub(1, Ordering::AcqRel) == 1 {
                 // release the node only when the ref count becomes 0
                 let _: Box<Node<T>> = Box::from_raw(tail);
             }
@@ -394,21 +347,8 @@ impl<T> Drop for Queue<T> {
         // `new`, or the entry popped last, whose handle may still be alive
         unsafe {
             let tail = *self.tail.get();
-            #[cfg(not(may_verif))]
-            {
-                (*tail).refs &= REF_COUNT_MASK;
-            }
-            #[cfg(may_verif)]
-            crate::verif::plain_rmw(&mut (*tail).refs, |v| v & REF_COUNT_MASK);
-            #[cfg(not(may_verif))]
-            {
-                (*tail).refs -= 1;
-            }
-            #[cfg(may_verif)]
-            crate::verif::plain_rmw(&mut (*tail).refs, |v| v - 1);
-            #[cfg(may_verif)]
-            crate::verif::point(crate::verif::Op::PlainRead, &(*tail).refs as *const usize as usize);
-            if (*tail).refs == 0 {
+            (*tail).refs.fetch_and(REF_COUNT_MASK, Ordering::AcqRel);
+            if (*tail).refs.fetch_sub(1, Ordering::AcqRel) == 1 {
                 let _: Box<Node<T>> = Box::from_raw(tail);
             }
         }
